@@ -163,6 +163,9 @@ def run(ctx, chk):
 
 
 def check_size(chk, prog, eff, cache):
+    import typestate as _ts
+    PA_ = _ts.PredAlgebra(prog)
+    CS_ = _ts.CallSites(prog, eff, cache, {}, PA_)
     f = prog.fn("cbor_serialized_size")
     where = "%s:%d" % (f.file, f.line)
     T = prog.enum("cbor_type")
@@ -195,17 +198,15 @@ def check_size(chk, prog, eff, cache):
     sums = 0
     for k, pa in enumerate(cache.get(f.name)):
         st = pa.st
-        ty = wd = None
-        for key, vals in st.inset.items():
-            x = key
-            while isinstance(x, tuple) and x[0] == "cast":
-                x = x[3]
-            if x[0] == "call" and x[1] == "cbor_typeof":
-                ty = sorted(vals)
-            elif x[0] == "call" and x[1] in ("cbor_int_get_width", "cbor_float_get_width"):
-                wd = (x[1], sorted(vals))
-        if ty is None:
-            continue
+        tys_, iw_, fw_, _fl = CS_.summary(f, pa, ("arg", 0))
+        if not tys_ or len(tys_) == 8:
+            continue   # infeasible path or the arm for a value outside the enumeration
+        ty = sorted(tys_)
+        wd = None
+        if set(ty) <= {T["CBOR_TYPE_UINT"], T["CBOR_TYPE_NEGINT"]} and len(iw_) == 1:
+            wd = ("cbor_int_get_width", sorted(iw_))
+        elif ty == [T["CBOR_TYPE_FLOAT_CTRL"]] and len(fw_) == 1:
+            wd = ("cbor_float_get_width", sorted(fw_))
         if set(ty) <= {T["CBOR_TYPE_UINT"], T["CBOR_TYPE_NEGINT"]} or ty == [T["CBOR_TYPE_FLOAT_CTRL"]]:
             if wd is None:
                 continue   # default arms (unreachable widths)
